@@ -270,23 +270,33 @@ fn verifier_layer(out: &mut UnitResult) {
                 out.class("verifier server exp=false");
             }
         }
+        // the rest of the presented chain never counts: only the end-entity certificate (the one
+        // the identity comes from) names the network. chains: none, one more certificate of
+        // another key for each name, and two of them
+        let mut chains: Vec<(String, Vec<CertificateDer<'static>>)> = vec![("no further certificates".into(), vec![])];
+        for n in all {
+            chains.push((format!("followed by another member's certificate for {n:?}"), vec![crate::adversary::anemo_cert(6, n)]));
+        }
+        chains.push(("followed by certificates for \"n1\" and \"zz\"".into(), vec![crate::adversary::anemo_cert(6, "n1"), crate::adversary::anemo_cert(7, "zz")]));
         for (ci, cert) in certs.iter().enumerate() {
-            out.evaluations += 1;
-            let got = anemo::verif::crypto::verify_client_cert(&accepted, cert, &[], now).is_ok();
-            let exp = accepted.iter().any(|n| n == all[ci]);
-            out.class(format!("verifier client exp={exp}"));
-            if got != exp {
-                out.violation("verifier-name-check", format!("verify_client_cert with accepted {accepted:?} and a certificate for {:?}: accepted={got}, expected {exp}", all[ci]), json!({"layer":"verifier","accepted":accepted,"cert":all[ci]}));
-            }
-            for dialed in all {
-                for expected_id in [None, Some(pid)] {
-                    out.evaluations += 1;
-                    let sn = ServerName::try_from(dialed).unwrap();
-                    let got = anemo::verif::crypto::verify_server_cert(&accepted, expected_id, cert, &[], &sn, now).is_ok();
-                    let exp = accepted.iter().any(|n| n == dialed) && all[ci] == dialed;
-                    out.class(format!("verifier server exp={exp}"));
-                    if got != exp {
-                        out.violation("verifier-name-check", format!("verify_server_cert with accepted {accepted:?}, dialed {dialed:?}, certificate for {:?}: accepted={got}, expected {exp}", all[ci]), json!({"layer":"verifier","accepted":accepted,"cert":all[ci],"dialed":dialed}));
+            for (chain_label, chain) in &chains {
+                out.evaluations += 1;
+                let got = anemo::verif::crypto::verify_client_cert(&accepted, cert, chain, now).is_ok();
+                let exp = accepted.iter().any(|n| n == all[ci]);
+                out.class(format!("verifier client exp={exp}"));
+                if got != exp {
+                    out.violation("verifier-name-check", format!("verify_client_cert with accepted {accepted:?} and a certificate for {:?} ({chain_label}): accepted={got}, expected {exp}", all[ci]), json!({"layer":"verifier","accepted":accepted,"cert":all[ci],"chain":chain_label}));
+                }
+                for dialed in all {
+                    for expected_id in [None, Some(pid)] {
+                        out.evaluations += 1;
+                        let sn = ServerName::try_from(dialed).unwrap();
+                        let got = anemo::verif::crypto::verify_server_cert(&accepted, expected_id, cert, chain, &sn, now).is_ok();
+                        let exp = accepted.iter().any(|n| n == dialed) && all[ci] == dialed;
+                        out.class(format!("verifier server exp={exp}"));
+                        if got != exp {
+                            out.violation("verifier-name-check", format!("verify_server_cert with accepted {accepted:?}, dialed {dialed:?}, certificate for {:?} ({chain_label}): accepted={got}, expected {exp}", all[ci]), json!({"layer":"verifier","accepted":accepted,"cert":all[ci],"dialed":dialed,"chain":chain_label}));
+                        }
                     }
                 }
             }
